@@ -9,7 +9,8 @@
 (***************************************************************************)
 EXTENDS MC_Session
 
-Numbers == { B("0"), B("00"), B("7"), B("007"), B("10"), B("18446744073709551614"),
+\* (the zero-padded spellings are 21 digits long: longer than any u64 numeral, and still the lines 0 and 7)
+Numbers == { B("0"), B("000000000000000000000"), B("7"), B("000000000000000000007"), B("10"), B("18446744073709551614"),
              B("18446744073709551615"), B("18446744073709551616") }
 Bodies == { B(" PRINT 1"), B(" PRINT 2"), B(""), B(" %"), B(" REM x"), B("  "), <<9>>, B(" LIST"), B(" new") }     \* a number followed only by blanks deletes, too; a command word after a number is just a stored line
 EditLines == {n \o b : n \in Numbers, b \in Bodies}
